@@ -1,0 +1,179 @@
+//go:build verif
+
+// Contracts for the deductive verifier in /verif (govc). Comment-only.
+
+package ledger
+
+// ---- ghost state: SQL transaction handles -----------------------------------------------------------
+// A Store value is a handle. BeginTX allocates a fresh handle that is an open SQL transaction; Commit and
+// Rollback close it. Every mutating Store method counts as one write on the handle it is called on.
+
+//@ ghost allocated arr[Store]bool
+//@ ghost open arr[Store]bool
+//@ ghost writes arr[Store]int
+//@ ghost logs arr[Store]int
+//@ ghost fnRuns arr[Store]int
+//@ ghost nBegin int
+//@ ghost nClosed int
+//@ ghost nCommit int
+//@ ghost committedLogs int
+//@ ghost committedFnRuns int
+
+// ---- assumed contracts of the Store interface (implemented by internal/storage/ledger over Postgres) ----
+
+//@ assumed func (s Store) BeginTX(ctx context.Context, options *sql.TxOptions) (r Store, tx *bun.Tx, err error)
+//@   modifies allocated, open, nBegin
+//@   ensures err != nil ==> allocated == old(allocated) && open == old(open) && nBegin == old(nBegin)
+//@   ensures err == nil ==> r != nil && !old(allocated)[r] && allocated == store(old(allocated), r, true)
+//@   ensures err == nil ==> open == store(old(open), r, true) && nBegin == old(nBegin) + 1
+//@   ensures err == nil ==> logs[r] == 0 && fnRuns[r] == 0 && writes[r] == 0
+
+//@ assumed func (s Store) Commit(ctx context.Context) (err error)
+//@   requires open[s]
+//@   modifies open, nClosed, nCommit, committedLogs, committedFnRuns
+//@   ensures open == store(old(open), s, false) && nClosed == old(nClosed) + 1
+//@   ensures err == nil ==> nCommit == old(nCommit) + 1 && committedLogs == old(committedLogs) + logs[s] && committedFnRuns == old(committedFnRuns) + fnRuns[s]
+//@   ensures err != nil ==> nCommit == old(nCommit) && committedLogs == old(committedLogs) && committedFnRuns == old(committedFnRuns)
+
+//@ assumed func (s Store) Rollback(ctx context.Context) (err error)
+//@   modifies open, nClosed
+//@   ensures open == store(old(open), s, false)
+//@   ensures nClosed == old(nClosed) + (old(open)[s] ? 1 : 0)
+
+//@ assumed func (s Store) InsertLog(ctx context.Context, log *ledger.Log) (err error)
+//@   requires log != nil
+//@   modifies writes, logs, log
+//@   ensures writes == store(old(writes), s, old(writes)[s] + 1)
+//@   ensures err == nil ==> logs == store(old(logs), s, old(logs)[s] + 1)
+//@   ensures err != nil ==> logs == old(logs)
+//@   ensures err == nil ==> log.ID != nil
+//@   ensures log.Data == old(log.Data) && log.IdempotencyKey == old(log.IdempotencyKey) && log.IdempotencyHash == old(log.IdempotencyHash) && log.SchemaVersion == old(log.SchemaVersion) && log.Type == old(log.Type)
+
+//@ assumed func (s Store) CommitTransaction(ctx context.Context, transaction *ledger.Transaction) (err error)
+//@   modifies writes, transaction
+//@   ensures writes == store(old(writes), s, old(writes)[s] + 1)
+//@   ensures transaction.Postings == old(transaction.Postings) && transaction.Metadata == old(transaction.Metadata) && transaction.Timestamp == old(transaction.Timestamp) && transaction.Reference == old(transaction.Reference)
+
+//@ assumed func (s Store) RevertTransaction(ctx context.Context, id uint64, at time.Time) (tx *ledger.Transaction, modified bool, err error)
+//@   modifies writes
+//@   ensures writes == store(old(writes), s, old(writes)[s] + 1)
+//@   ensures err == nil ==> tx != nil
+//@   ensures err == nil && modified ==> tx.RevertedAt != nil && tx.ID != nil
+
+//@ assumed func (s Store) UpdateTransactionMetadata(ctx context.Context, transactionID uint64, m metadata.Metadata, at time.Time) (tx *ledger.Transaction, modified bool, err error)
+//@   modifies writes
+//@   ensures writes == store(old(writes), s, old(writes)[s] + 1)
+
+//@ assumed func (s Store) DeleteTransactionMetadata(ctx context.Context, transactionID uint64, key string, at time.Time) (tx *ledger.Transaction, modified bool, err error)
+//@   modifies writes
+//@   ensures writes == store(old(writes), s, old(writes)[s] + 1)
+
+//@ assumed func (s Store) UpdateAccountsMetadata(ctx context.Context, m map[string]metadata.Metadata, at time.Time) (err error)
+//@   modifies writes
+//@   ensures writes == store(old(writes), s, old(writes)[s] + 1)
+
+//@ assumed func (s Store) UpsertAccounts(ctx context.Context, accounts ...ledger.AccountWithDefaultMetadata) (err error)
+//@   modifies writes
+//@   ensures writes == store(old(writes), s, old(writes)[s] + 1)
+
+//@ assumed func (s Store) DeleteAccountMetadata(ctx context.Context, address string, key string) (err error)
+//@   modifies writes
+//@   ensures writes == store(old(writes), s, old(writes)[s] + 1)
+
+//@ assumed func (s Store) InsertSchema(ctx context.Context, data *ledger.Schema) (err error)
+//@   modifies writes
+//@   ensures writes == store(old(writes), s, old(writes)[s] + 1)
+
+//@ assumed func (s Store) FindSchema(ctx context.Context, version string) (r *ledger.Schema, err error)
+//@   ensures err == nil ==> r != nil
+
+//@ assumed func (s Store) FindLatestSchemaVersion(ctx context.Context) (r *string, err error)
+
+//@ assumed func (s Store) ReadLogWithIdempotencyKey(ctx context.Context, ik string) (r *ledger.Log, err error)
+//@   ensures err == nil ==> r != nil && r.IdempotencyKey == ik
+
+//@ assumed func (s Store) GetBalances(ctx context.Context, query ledgerstore.BalanceQuery) (r ledger.Balances, err error)
+
+// ---- log_process.go ---------------------------------------------------------------------------------
+
+
+//@ func (lp *logProcessor[INPUT, OUTPUT]) fetchLogWithIK(ctx context.Context, store Store, parameters Parameters[INPUT]) (log *ledger.Log, output *OUTPUT, err error)
+//@   property C13
+//@   ensures err != nil ==> log == nil && output == nil
+//@   ensures output != nil ==> log != nil && err == nil && log.IdempotencyKey == parameters.IdempotencyKey
+
+//@ func (lp *logProcessor[INPUT, OUTPUT]) runLog(ctx context.Context, store Store, parameters Parameters[INPUT], fn func(ctx context.Context, sqlTX Store, schema *ledger.Schema, parameters Parameters[INPUT]) (*OUTPUT, error)) (log *ledger.Log, output *OUTPUT, err error)
+//@   property C07 C08 C13 C29
+//@   modifies writes, logs, fnRuns
+//@   ensures forall h Store :: {writes[h]} h != store ==> writes[h] == old(writes)[h]
+//@   ensures forall h Store :: {logs[h]} h != store ==> logs[h] == old(logs)[h]
+//@   ensures forall h Store :: {fnRuns[h]} h != store ==> fnRuns[h] == old(fnRuns)[h]
+//@   ensures err == nil ==> fnRuns[store] == old(fnRuns)[store] + 1 && logs[store] == old(logs)[store] + 1
+//@   ensures err != nil ==> logs[store] == old(logs)[store] && fnRuns[store] <= old(fnRuns)[store] + 1
+//@   ensures err == nil ==> log != nil && output != nil
+//@   ensures err == nil ==> log.IdempotencyKey == parameters.IdempotencyKey && log.SchemaVersion == parameters.SchemaVersion
+//@   ensures err != nil ==> log == nil && output == nil
+//@   fnparam fn(c, sqlTX, schema, params) (out, ferr):
+//@     modifies writes, fnRuns
+//@     ensures fnRuns == store(old(fnRuns), sqlTX, old(fnRuns)[sqlTX] + 1)
+//@     ensures forall h Store :: {writes[h]} h != sqlTX ==> writes[h] == old(writes)[h]
+//@     ensures ferr == nil ==> out != nil
+
+//@ func (lp *logProcessor[INPUT, OUTPUT]) runTx(ctx context.Context, store Store, parameters Parameters[INPUT], fn func(ctx context.Context, sqlTX Store, schema *ledger.Schema, parameters Parameters[INPUT]) (*OUTPUT, error)) (log *ledger.Log, output *OUTPUT, err error)
+//@   property C07 C08 C13
+//@   requires allocated[store]
+//@   modifies allocated, open, nBegin, nClosed, nCommit, committedLogs, committedFnRuns, writes, logs, fnRuns
+//@   ensures nBegin - old(nBegin) == nClosed - old(nClosed)
+//@   ensures forall h Store :: {writes[h]} old(allocated)[h] ==> writes[h] == old(writes)[h]
+//@   ensures forall h Store :: {open[h]} old(allocated)[h] ==> open[h] == old(open)[h]
+//@   ensures forall h Store :: {allocated[h]} old(allocated)[h] ==> allocated[h]
+//@   ensures err != nil || parameters.DryRun ==> nCommit == old(nCommit) && committedLogs == old(committedLogs) && committedFnRuns == old(committedFnRuns)
+//@   ensures err == nil && !parameters.DryRun ==> nCommit == old(nCommit) + 1 && committedLogs == old(committedLogs) + 1 && committedFnRuns == old(committedFnRuns) + 1
+//@   ensures err == nil ==> log != nil && output != nil
+//@   fnparam fn(c, sqlTX, schema, params) (out, ferr):
+//@     modifies writes, fnRuns
+//@     ensures fnRuns == store(old(fnRuns), sqlTX, old(fnRuns)[sqlTX] + 1)
+//@     ensures forall h Store :: {writes[h]} h != sqlTX ==> writes[h] == old(writes)[h]
+//@     ensures ferr == nil ==> out != nil
+
+//@ func (lp *logProcessor[INPUT, OUTPUT]) forgeLogRetry(ctx context.Context, store Store, parameters Parameters[INPUT], fn func(ctx context.Context, store Store, schema *ledger.Schema, parameters Parameters[INPUT]) (*OUTPUT, error)) (log *ledger.Log, output *OUTPUT, hit bool, err error)
+//@   property C07 C08 C13
+//@   requires allocated[store]
+//@   modifies allocated, open, nBegin, nClosed, nCommit, committedLogs, committedFnRuns, writes, logs, fnRuns
+//@   ensures nBegin - old(nBegin) == nClosed - old(nClosed)
+//@   ensures forall h Store :: {writes[h]} old(allocated)[h] ==> writes[h] == old(writes)[h]
+//@   ensures forall h Store :: {open[h]} old(allocated)[h] ==> open[h] == old(open)[h]
+//@   ensures forall h Store :: {allocated[h]} old(allocated)[h] ==> allocated[h]
+//@   ensures err != nil || parameters.DryRun || hit ==> nCommit == old(nCommit) && committedLogs == old(committedLogs) && committedFnRuns == old(committedFnRuns)
+//@   ensures err == nil && !parameters.DryRun && !hit ==> nCommit == old(nCommit) + 1 && committedLogs == old(committedLogs) + 1 && committedFnRuns == old(committedFnRuns) + 1
+//@   ensures err == nil ==> log != nil && output != nil
+//@   ensures err != nil ==> !hit
+//@   assume-unreachable "incoherent error" database fact: an InsertLog that fails with an idempotency-key conflict means a committed log with that key exists (unique index), so ReadLogWithIdempotencyKey finds it
+//@   loop 1:
+//@     invariant nBegin - old(nBegin) == nClosed - old(nClosed)
+//@     invariant nCommit == old(nCommit) && committedLogs == old(committedLogs) && committedFnRuns == old(committedFnRuns)
+//@     invariant forall h Store :: {writes[h]} old(allocated)[h] ==> writes[h] == old(writes)[h]
+//@     invariant forall h Store :: {open[h]} old(allocated)[h] ==> open[h] == old(open)[h]
+//@     invariant forall h Store :: {allocated[h]} old(allocated)[h] ==> allocated[h]
+//@   fnparam fn(c, sqlTX, schema, params) (out, ferr):
+//@     modifies writes, fnRuns
+//@     ensures fnRuns == store(old(fnRuns), sqlTX, old(fnRuns)[sqlTX] + 1)
+//@     ensures forall h Store :: {writes[h]} h != sqlTX ==> writes[h] == old(writes)[h]
+//@     ensures ferr == nil ==> out != nil
+
+//@ func (lp *logProcessor[INPUT, OUTPUT]) forgeLog(ctx context.Context, store Store, parameters Parameters[INPUT], fn func(ctx context.Context, store Store, schema *ledger.Schema, parameters Parameters[INPUT]) (*OUTPUT, error)) (log *ledger.Log, output *OUTPUT, hit bool, err error)
+//@   property C07 C08 C13
+//@   requires allocated[store]
+//@   modifies allocated, open, nBegin, nClosed, nCommit, committedLogs, committedFnRuns, writes, logs, fnRuns
+//@   ensures nBegin - old(nBegin) == nClosed - old(nClosed)
+//@   ensures forall h Store :: {writes[h]} old(allocated)[h] ==> writes[h] == old(writes)[h]
+//@   ensures forall h Store :: {open[h]} old(allocated)[h] ==> open[h] == old(open)[h]
+//@   ensures err != nil || parameters.DryRun || hit ==> nCommit == old(nCommit) && committedLogs == old(committedLogs) && committedFnRuns == old(committedFnRuns)
+//@   ensures err == nil && !parameters.DryRun && !hit ==> nCommit == old(nCommit) + 1 && committedLogs == old(committedLogs) + 1 && committedFnRuns == old(committedFnRuns) + 1
+//@   ensures err == nil ==> log != nil && output != nil
+//@   ensures err != nil ==> !hit
+//@   fnparam fn(c, sqlTX, schema, params) (out, ferr):
+//@     modifies writes, fnRuns
+//@     ensures fnRuns == store(old(fnRuns), sqlTX, old(fnRuns)[sqlTX] + 1)
+//@     ensures forall h Store :: {writes[h]} h != sqlTX ==> writes[h] == old(writes)[h]
+//@     ensures ferr == nil ==> out != nil
